@@ -1029,7 +1029,9 @@ class FuncCeiling(ValueFunc):
     def execute(self, args, environment, pos):
         if args.isNull("x"):
             return NULL
-        return ValueDecimal(math.ceil(args.getNumerical("x").value))
+        return ValueDecimal(
+            safe_math(math.ceil, pos, args.getNumerical("x").value)
+        )
 
 
 class FuncChr(ValueFunc):
@@ -1857,7 +1859,9 @@ class FuncFloor(ValueFunc):
     def execute(self, args, environment, pos):
         if args.isNull("x"):
             return NULL
-        return ValueDecimal(math.floor(args.getNumerical("x").value))
+        return ValueDecimal(
+            safe_math(math.floor, pos, args.getNumerical("x").value)
+        )
 
 
 class FuncFormatDate(ValueFunc):
